@@ -231,24 +231,25 @@ def run(ctx):
             ctx.add_broken("model driver no longer builds", out[-2000:])
             return ctx.finish(LEVEL, {"evaluations": 0, "distinct_nontrivial": 0, "samples": [], "explanation": "aborted"}, [])
     rng = ctx.rng
-    cases = [(t, None) for t in TEXTBOOK]
+    # strict: every conflict of the family is a genuine ambiguity (or there is none), so the table must accept exactly L(G)
+    cases = [(t, None, True) for t in TEXTBOOK]
     for _ in range(150 if quick else 1500):
         t, ops, levels = op_grammar(rng)
-        cases.append((t, (ops, levels)))
+        cases.append((t, (ops, levels), True))
     for _ in range(500 if quick else 6000):
-        cases.append((random_grammar(rng), None))
+        cases.append((random_grammar(rng), None, True))
     for _ in range(200 if quick else 2000):
         body, hs, ex = rng.choice(NOT_SLR)
-        cases.append((with_directives(rng, body, hs, ex), None))
+        cases.append((with_directives(rng, body, hs, ex), None, True))      # LALR(1) without directives: they must change nothing
     for _ in range(200 if quick else 2000):
         t = random_grammar(rng)[len("grammar g; "):]
-        cases.append((with_directives(rng, t, ['"x"', '"y"', '"z"', '"w"'], []), None))
-    impl = ctx.run_impl_par("lalr", [hx(t.encode()) for t, _ in cases], timeout=900, isolate=True)
+        cases.append((with_directives(rng, t, ['"x"', '"y"', '"z"', '"w"'], []), None, False))
+    impl = ctx.run_impl_par("lalr", [hx(t.encode()) for t, _, _ in cases], timeout=900, isolate=True)
     model = ctx.run_model_par("lalr", [l.split(" ", 1)[1] if " " in l else "nt=0 nnt=0 start=0 prods= levels=" for l in impl])
     stats = {"accepted": 0, "rejected_conflict": 0, "rejected_earlier": 0, "tables_isomorphic_to_reference": 0, "tables_well_formed": 0, "sentences_compared": 0, "expressions_compared": 0, "known_order_dependence": 0}
     distinct = set()
     ncorr = 0
-    for (text, opinfo), i, m in zip(cases, impl, model):
+    for (text, opinfo, strict), i, m in zip(cases, impl, model):
         g = parse_lalr(i)
         if g["kind"] in ("PARSEERR",):
             stats["rejected_earlier"] += 1
@@ -301,6 +302,19 @@ def run(ctx):
                 stats["sentences_compared"] += 1
                 acc, reds = lr_run(g, w)
                 if acc != (tuple(w) in lang):
+                    if not acc and strict is False and mf.get("noprec") == "reject":
+                        # the grammar is not LALR(1) without its directives and is not ambiguous by construction: resolving a
+                        # conflict that is not an ambiguity removes sentences (inherent to precedence resolution; the
+                        # reference table does the same). Only soundness is expected of such a table.
+                        stats["sentences_removed_by_resolving_non_ambiguities"] = stats.get("sentences_removed_by_resolving_non_ambiguities", 0) + 1
+                        continue
+                    f26 = [f for f in known_for("C06") if f["id"] == "F26"]
+                    if f26 and g["fields"].get("direct") == "1" and mf.get("iso") != "1":
+                        # the dependency's own construction, called directly, returns this very table, and it is not the LALR(1) table
+                        stats["grammars_with_the_dependency_s_unsound_table"] = stats.get("grammars_with_the_dependency_s_unsound_table", 0) + 1
+                        if f26[0] not in ctx.known_hits:
+                            ctx.known_hits.append(f26[0])
+                        break
                     ctx.add_violation("the table %s a terminal string that %s a sentence of the grammar" % ("accepts" if acc else "rejects", "is not" if acc else "is"),
                                       {"input": text, "input_hex": hx(text.encode()), "sentence": [g["tnames"][x] for x in w]})
                     break
